@@ -66,6 +66,7 @@
 #include <stdlib.h>
 #include <string.h>
 #include <sys/mman.h>
+#include <time.h>
 #include <ucontext.h>
 #include <unistd.h>
 
@@ -488,6 +489,32 @@ void tramp_call_ms(void *fn, struct tramp_ctx *ctx);
 
 static const char *const GPR_NAMES[8] = {"rbx", "rbp", "r12", "r13", "r14", "r15", "rsi", "rdi"};
 
+/* Stack alignment sweep: the System V ABI only promises rsp % 16 == 0 at a call site, so a kernel may be
+ * entered with rsp % 64 in {8, 24, 40, 56}; kernels that realign their frame (and rsp, -64) have a different
+ * amount of slack in each case.  Every kernel function cycles through the four call-site alignments over its
+ * own successive calls (alloca shifts the trampoline's frame by 0/16/32/48 bytes). */
+static __thread struct { void *fn; unsigned n; } g_align_tab[64];
+static unsigned next_alignment(void *fn) {
+  for (int i = 0; i < 64; i++) {
+    if (g_align_tab[i].fn == fn) return g_align_tab[i].n++ & 3;
+    if (g_align_tab[i].fn == NULL) {
+      g_align_tab[i].fn = fn;
+      g_align_tab[i].n = 1;
+      return 0;
+    }
+  }
+  return 0;
+}
+static __attribute__((noinline)) void tramp_at(void *fn, int ms, struct tramp_ctx *c, unsigned k) {
+  volatile char *pad = __builtin_alloca(16 * (size_t)k + 16);
+  pad[0] = 0;
+  if (ms)
+    tramp_call_ms(fn, c);
+  else
+    tramp_call_sysv(fn, c);
+  pad[1] = 0;
+}
+
 /* widths[i] = 8 for uint8_t, 1 for bool, 64 otherwise */
 static void kcall(void *fn, int ms, const uint64_t args[10], const uint8_t widths[10], sb *out) {
   struct tramp_ctx c;
@@ -505,10 +532,7 @@ static void kcall(void *fn, int ms, const uint64_t args[10], const uint8_t width
   }
   for (int i = 0; i < 8; i++) c.gpr_in[i] = 0xB1B2B3B4C5C6C7C0ULL + (uint64_t)i * 0x0101010101010101ULL;
   for (int i = 0; i < 160; i++) c.xmm_in[i] = (uint8_t)(0x60 + 3 * i);
-  if (ms)
-    tramp_call_ms(fn, &c);
-  else
-    tramp_call_sysv(fn, &c);
+  tramp_at(fn, ms, &c, next_alignment(fn));
   int ngpr = ms ? 8 : 6;
   for (int i = 0; i < ngpr; i++)
     if (c.gpr_out[i] != c.gpr_in[i]) sb_tok(out, "abi:%s", GPR_NAMES[i]);
@@ -1005,11 +1029,19 @@ typedef struct {
   char *text;
   sb out;
   pthread_barrier_t *bar;
+  uint64_t delay_ns; /* C_THR_STAGGER_NS * thread index: spread the threads' first library calls */
 } thr_arg;
 
 static void *thr_main(void *p) {
   thr_arg *a = p;
   pthread_barrier_wait(a->bar);
+  if (a->delay_ns) {
+    struct timespec t0, t1;
+    clock_gettime(CLOCK_MONOTONIC, &t0);
+    do {
+      clock_gettime(CLOCK_MONOTONIC, &t1);
+    } while ((uint64_t)(t1.tv_sec - t0.tv_sec) * 1000000000ull + (uint64_t)t1.tv_nsec - (uint64_t)t0.tv_nsec < a->delay_ns);
+  }
   run_guarded(a->text, &a->out, 1);
   return NULL;
 }
@@ -1044,6 +1076,7 @@ static void case_thr(char *rest, sb *out) {
     args[i].text = strdup(cases[i % ncases]);
     memset(&args[i].out, 0, sizeof(sb));
     args[i].bar = &bar;
+    args[i].delay_ns = getenv("C_THR_STAGGER_NS") ? (uint64_t)i * strtoull(getenv("C_THR_STAGGER_NS"), NULL, 10) : 0;
     if (pthread_create(&tids[i], NULL, thr_main, &args[i])) die("pthread_create failed");
     started++;
   }
